@@ -37,7 +37,7 @@ func (vc *VC) inPkg(f *ssa.Function) bool {
 }
 
 func isSpecHelper(name string) bool {
-	return name == "__forall" || name == "__exists" || name == "__old" || name == "__trigger" || name == "__has"
+	return name == "__forall" || name == "__exists" || name == "__old" || name == "__trigger" || name == "__has" || name == "__same"
 }
 
 func (vc *VC) isSpecDecl(name string) *SpecDecl {
@@ -110,6 +110,9 @@ func (fr *Frame) staticCall(t *ssa.Call, callee *ssa.Function, bindings []Val) {
 			return
 		case name == "__trigger":
 			fr.vals[t] = Val{T: tTrue}
+			return
+		case name == "__same":
+			fr.vals[t] = Val{T: eq(args[0].T, args[1].T)}
 			return
 		case name == "__has":
 			mt := vc.rt(t.Common().Args[0].Type()).Underlying().(*types.Map)
@@ -1175,6 +1178,14 @@ func (fr *Frame) externCall(name string, args []ssa.Value, rt types.Type, invoke
 		return Val{T: Term{fmt.Sprintf("(popcnt64 %s)", x.S), bvSort(64)}}
 	case "(*sync.Mutex).Lock", "(*sync.Mutex).Unlock":
 		return Val{}
+	case "fmt.Errorf", "errors.New":
+		vc.assumed["dependency contract: "+name+" returns a non-nil error and has no other effect"] = true
+		e := vc.freshConst("err", SIface)
+		vc.assume(not(eq(e, Term{"niliface", SIface})))
+		return Val{T: e}
+	case "(encoding/binary.bigEndian).PutUint32", "(encoding/binary.bigEndian).Uint32", "(encoding/binary.bigEndian).AppendUint32":
+		vc.assumed["dependency contract: encoding/binary.BigEndian.{PutUint32,Uint32,AppendUint32} store/load the four bytes most significant first (assumed, not inlined)"] = true
+		return fr.bigEndian(name, args)
 	}
 	vc.assumed["external call "+name+": result arbitrary, no effect on modelled memory, no panic"] = true
 	if tup, ok := rt.(*types.Tuple); ok && tup.Len() == 0 {
@@ -1186,6 +1197,77 @@ func (fr *Frame) externCall(name string, args []ssa.Value, rt types.Type, invoke
 	v := vc.freshVal("ext_"+name, rt)
 	vc.assumeWFVal(fr.st, v, rt)
 	return v
+}
+
+// bigEndian models the three encoding/binary.BigEndian methods used by the package.
+func (fr *Frame) bigEndian(name string, args []ssa.Value) Val {
+	vc := fr.vc
+	bv8 := bvSort(8)
+	byteT := types.Typ[types.Uint8]
+	h := vc.heapNameElem(byteT)
+	vc.heapDecl(h, bv8)
+	ext := func(v Term, k int) Term { // byte k (0 = most significant) of a 32-bit value
+		hi := 31 - 8*k
+		return Term{fmt.Sprintf("((_ extract %d %d) %s)", hi, hi-7, v.S), bv8}
+	}
+	switch {
+	case strings.HasSuffix(name, ".PutUint32"):
+		b, v := fr.term(args[1]), fr.term(args[2])
+		fr.check("bounds", "binary.BigEndian.PutUint32", app(SBool, "bvuge", slen(b), bvLit(4, 64)), args[1].Pos())
+		for k := 0; k < 4; k++ {
+			vc.heapWrite(fr.st, h, elemPtr(sptr(b), bvLit(uint64(k), 64)), ext(v, k))
+		}
+		return Val{}
+	case strings.HasSuffix(name, ".Uint32") && !strings.HasSuffix(name, "AppendUint32"):
+		b := fr.term(args[1])
+		fr.check("bounds", "binary.BigEndian.Uint32", app(SBool, "bvuge", slen(b), bvLit(4, 64)), args[1].Pos())
+		var bs []Term
+		for k := 0; k < 4; k++ {
+			bs = append(bs, vc.heapRead(fr.st, h, elemPtr(sptr(b), bvLit(uint64(k), 64))))
+		}
+		return Val{T: vc.name("be32", app(bvSort(32), "concat", bs...))}
+	default: // AppendUint32
+		b, v := fr.term(args[1]), fr.term(args[2])
+		var vals []Term
+		for k := 0; k < 4; k++ {
+			vals = append(vals, ext(v, k))
+		}
+		return Val{T: fr.appendVals(b, byteT, vals, "be_append")}
+	}
+}
+
+// appendVals appends a constant number of element values to a slice (same semantics as the
+// append builtin: in place when capacity suffices, otherwise a fresh zero-padded copy).
+func (fr *Frame) appendVals(s Term, elem types.Type, vals []Term, name string) Term {
+	vc := fr.vc
+	bv := bvSort(64)
+	n := bvLit(uint64(len(vals)), 64)
+	newLen := vc.name("applen", app(bv, "bvadd", slen(s), n))
+	inplace := vc.name("inplace", app(SBool, "bvule", newLen, scap(s)))
+	fresh := vc.newAlloc(fr.st, true)
+	vc.markFresh(elem)
+	newCap := vc.freshConst("appcap", bv)
+	vc.assume(and(app(SBool, "bvule", newLen, newCap), app(SBool, "bvule", newCap, Term{"#x0000010000000000", bv})))
+	rptr := vc.name("appptr", ite(inplace, sptr(s), fresh))
+	rcap := ite(inplace, scap(s), newCap)
+	hs := map[string]bool{}
+	vc.heapsOfType(elem, hs)
+	for _, h := range sortedKeys(hs) {
+		oldH := vc.heapGet(fr.st, h)
+		_, vs := arrayParts(oldH.Sort)
+		roots := vc.heapRoots(fr.st, h)
+		nh := vc.freshConst(h, oldH.Sort)
+		vc.rootBound[nh.S] = fr.st.nalloc
+		vc.asserts = append(vc.asserts,
+			fmt.Sprintf("(forall ((q Ptr)) (! (= (select %[1]s q) (ite (= (alloc q) (alloc %[2]s)) (ite (bvult (rootidx3 (path q)) %[3]s) (select %[4]s (mkptr (alloc %[5]s) (rebase3 (path q) (pe_p (path %[5]s)) (pe_i (path %[5]s))))) %[6]s) (select %[4]s q))) :pattern ((select %[1]s q))))",
+				nh.S, fresh.S, slen(s).S, oldH.S, sptr(s).S, vc.zeroOfSort(vs).S))
+		fr.st.heaps[h] = vc.name(h, ite(inplace, oldH, nh))
+		fr.st.roots[h] = append(append([]string{}, roots...), nh.S)
+	}
+	for k, v := range vals {
+		vc.storeAt(fr.st, elemPtr(rptr, app(bv, "bvadd", slen(s), bvLit(uint64(k), 64))), elem, v)
+	}
+	return vc.name(name, mkSlice(rptr, newLen, rcap))
 }
 
 // ---- builtins -------------------------------------------------------------------------------
@@ -1204,8 +1286,14 @@ func (fr *Frame) builtin(t *ssa.Call, b *ssa.Builtin) {
 			if !ok {
 				unsup("len of %s", args[0].Type())
 			}
-			_, _, ln, _, _ := vc.mapHeaps(mt)
-			fr.set(t, ite(isNil(x.T), bvLit(0, 64), vc.heapRead(fr.st, ln, x.T)))
+			has, _, ln, ks, _ := vc.mapHeaps(mt)
+			l := vc.heapRead(fr.st, ln, x.T)
+			// a map of length zero has no keys
+			if vc.qdepth == 0 {
+				vc.assume(implies(eq(l, bvLit(0, 64)), eq(vc.heapRead(fr.st, has, x.T), Term{fmt.Sprintf("((as const (Array %s Bool)) false)", ks), arraySort(ks, SBool)})))
+				vc.assume(app(SBool, "bvule", l, Term{"#x0000010000000000", bvSort(64)}))
+			}
+			fr.set(t, ite(isNil(x.T), bvLit(0, 64), l))
 		case SStr:
 			fn := "strlen"
 			if _, ok := vc.declared[fn]; !ok {
